@@ -219,3 +219,41 @@ def nested_deriver_named_like_its_base():
             if d.me is not d or d.mc is not d.c:
                 out.append("depth %d, %s: references of the nested B are bound to %r %r" % (depth, mode, d.me, d.mc))
     return "; ".join(out) or None
+
+
+# ------------------------------------------------------------------ C10-7 (from the mutant stress test: trees related at the top
+# and at depth 2 only, the level in between unrelated)
+def mirrored_tree_related_at_top_and_depth2():
+    """A.C.G defines r -> its own cells (auto) and s -> itself (relative); B(A), B.C plain, B.C.G(A.C.G): the
+    references of B.C.G denote B.C.G's own members.  t -> A.x and u -> A (targets outside A.C.G's tree) denote the
+    originals once B no longer derives from A."""
+    out = []
+    m = _reset()
+    a = m.new_space("A")
+    a.new_cells("x", formula="lambda i: i")
+    g = a.new_space("C").new_space("G")
+    g.new_cells("x", formula="lambda i: 2 * i")
+    g.set_ref("r", g.x, "auto")
+    g.set_ref("s", g, "relative")
+    g.set_ref("t", a.x, "auto")
+    g.set_ref("u", a, "auto")
+    b = m.new_space("B", bases=a)
+    try:
+        bg = b.new_space("C").new_space("G", bases=g)
+    except Exception as e:     # noqa
+        return "B.C.new_space('G', bases=A.C.G) raised %s" % _err(e)
+    if bg.r is not bg.x:
+        out.append("B.C.G.r is %r, expected B.C.G.x" % (bg.r,))
+    if bg.s is not bg:
+        out.append("B.C.G.s is %r, expected B.C.G" % (bg.s,))
+    try:
+        b.remove_bases(a)
+    except Exception as e:     # noqa
+        return "; ".join(out + ["B.remove_bases(A) raised %s" % _err(e)])
+    if bg.t is not a.x:
+        out.append("after B.remove_bases(A): B.C.G.t is %r, expected the original A.x" % (bg.t,))
+    if bg.u is not a:
+        out.append("after B.remove_bases(A): B.C.G.u is %r, expected the original A" % (bg.u,))
+    if bg.r is not bg.x or bg.s is not bg:
+        out.append("after B.remove_bases(A): r / s of B.C.G are %r / %r" % (bg.r, bg.s))
+    return "; ".join(out) or None
